@@ -125,6 +125,46 @@ func TestVerifC10Workers(t *testing.T) {
 			return fmt.Sprintf("%s err=%v", b, err)
 		}},
 	}
+	// a third tree: a module that imports ANOTHER module (local replace), scanned with --deps
+	// transitive; several functions of the dependency are in the database
+	appDir, libDir := filepath.Join(scratch, "tree3", "app"), filepath.Join(scratch, "tree3", "implant")
+	os.MkdirAll(appDir, 0o755)
+	os.MkdirAll(libDir, 0o755)
+	os.WriteFile(filepath.Join(appDir, "go.mod"), []byte("module example.com/app\n\ngo 1.21\n\nrequire example.org/implant v0.0.0\n\nreplace example.org/implant => ../implant\n"), 0o644)
+	os.WriteFile(filepath.Join(appDir, "main.go"), []byte("package main\n\nimport \"example.org/implant\"\n\nfunc main() {\n\timplant.Start(3)\n}\n"), 0o644)
+	os.WriteFile(filepath.Join(libDir, "go.mod"), []byte("module example.org/implant\n\ngo 1.21\n"), 0o644)
+	libSrc := "package implant\n\nimport (\n\t\"os\"\n\t\"strings\"\n)\n\nfunc Start(n int) int {\n\tt := 0\n\tfor i := 0; i < n; i++ {\n\t\tt += Weigh(i)\n\t}\n\treturn t\n}\n\nfunc Weigh(k int) int {\n\tif k > 2 {\n\t\treturn k * len(os.Args)\n\t}\n\treturn k\n}\n\nfunc Label(x, y string) string {\n\tif strings.HasPrefix(x, y) {\n\t\treturn strings.ToUpper(x)\n\t}\n\treturn y\n}\n\nfunc Drop(path string) error {\n\tf, err := os.Create(path)\n\tif err != nil {\n\t\treturn err\n\t}\n\treturn f.Close()\n}\n\nfunc Tag(a, b int) int { return a<<3 | b }\n"
+	os.WriteFile(filepath.Join(libDir, "implant.go"), []byte(libSrc), 0o644)
+	dbPath3 := filepath.Join(scratch, "sigs3.json")
+	{
+		db3 := jsondb.NewScanner()
+		if res, err := LoadAndFingerprint(RealFileSystem{}, filepath.Join(libDir, "implant.go")); err == nil {
+			for _, x := range res {
+				if fn := x.GetSSAFunction(); fn != nil {
+					if tp := topology.ExtractTopology(fn); tp != nil {
+						sg := detection.IndexFunction(tp, "Implant_"+ShortFunctionName(x.FunctionName), "d", "HIGH", "m")
+						sg.ID = "SIG3-" + ShortFunctionName(x.FunctionName)
+						db3.AddSignature(&sg)
+					}
+				}
+			}
+		}
+		db3.SaveDatabase(dbPath3)
+	}
+	scenarios = append(scenarios, struct {
+		name string
+		run  func() string
+	}{"RunScanLogic(module with a dependency, --deps transitive)", func() string {
+		tmp := filepath.Join(scratch, "stdout3.json")
+		f, _ := os.Create(tmp)
+		old := os.Stdout
+		os.Stdout = f
+		err := RunScanLogic(RealFileSystem{}, RealPackageLoader{}, appDir, models.ScanOptions{DBPath: dbPath3, Threshold: 0.9, ScanDeps: true, DepsDepth: "transitive"})
+		os.Stdout = old
+		f.Close()
+		b, _ := os.ReadFile(tmp)
+		return fmt.Sprintf("%s err=%v", b, err)
+	}})
 	for si, sc := range scenarios {
 		if !vh.Mine(si) || r.Expired() {
 			continue
